@@ -28,7 +28,7 @@ pub fn info(prop: &str) -> PropInfo {
     let (level, rule) = match prop {
         "C01" => ("exploration", "random concurrent histories (proptest) over 1-2 topics x 1-4 subscriptions; non-trivial = a publish returned while >=2 subscriptions were attached to its topic AND (a redelivery happened OR two publishes overlapped OR a create/delete overlapped a publish); distinct by hash of the operation list"),
         "C02" => ("exploration", "exhaustive enumeration of all sequences over a 12-symbol alphabet up to a length bound (1 topic, 2 subscriptions, stats compared with the model after every step) plus random concurrent histories; non-trivial = an acknowledgement took effect while another delivery was outstanding, or a stale/unknown ack id was sent while a delivery was outstanding; distinct by hash of the operation list"),
-        "C03" => ("exploration", "random histories with 2-6 concurrent consumers (unary pulls, streams, bursts) per subscription; non-trivial = >=2 consumer calls in flight at once on a subscription holding >=2 messages and >=1 redelivery; distinct by hash of the operation list"),
+        "C03" => ("exploration", "random histories with 2-6 concurrent consumers (unary pulls, streams, bursts) per subscription, plus one batch of push subscriptions against a scripted HTTP endpoint (slow and silent answers, rounds of 60 messages); non-trivial = >=2 consumer calls in flight at once on a subscription holding >=2 messages and >=1 redelivery; distinct by hash of the operation list"),
         "C04" => ("exploration", "structured histories: ack_deadline_seconds from a boundary set, generated rounding phase, 1-6 messages handed out at 1-3 instants, probes positioned exactly around each deadline (GoTo -2ms..-1us and +101..200ms) plus blocked consumers; exhaustive sweep of AckDeadline::new over all 100000 microsecond phases; non-trivial = >=1 probe inside the last 2 ms before a deadline and >=1 redelivery after expiry; distinct by (phase, operation list)"),
         "C05" => ("exploration", "structured histories mixing ModifyAckDeadline (unary and streaming, boundary N values, mixed id classes) with exact probes around the old and new deadline; non-trivial = a request mixing >=2 ack-id classes, or a shortening / repeated modification of one delivery; distinct by hash of the operation list"),
         "C06" => ("exploration", "directed-random schedules: 1-5 waiting consumers, availability event at 0-6 ticks, bursts that fill the mailbox, aborts of woken consumers, cfg(deltio_verif) yield points; non-trivial = the availability event happened while >=1 consumer call was waiting, with >=2 consumers or an abort; distinct by hash of the operation list and yield points"),
@@ -184,7 +184,7 @@ pub fn deadline_strategy(with_modify: bool) -> BoxedStrategy<Case> {
         2 => Just(102_000i64),
         2 => 101_001i64..250_000,
     ];
-    let mod_vals: Vec<i32> = vec![0, 0, 1, 5, 9, 10, 11, 599, 600, 601, 1_000_000, i32::MAX, -1, i32::MIN];
+    let mod_vals: Vec<i32> = vec![0, 0, 1, 5, 9, 10, 11, 599, 600, 601, 65_535, 65_536, 65_537, 65_536 + 599, 131_072 + 3, 1_000_000, i32::MAX, -1, i32::MIN];
     let mod_secs = prop_oneof![
         3 => (0..mod_vals.len()).prop_map(move |i| mod_vals[i]),
         1 => 1i32..700,
@@ -197,6 +197,7 @@ pub fn deadline_strategy(with_modify: bool) -> BoxedStrategy<Case> {
         2 => Just(Op::Pull { s: s0, max: 10, ri: false, a: true }),
         1 => Just(Op::StreamOpen { s: s0, max_out: 10 }),
         1 => Just(Op::StreamDrop { k: 0 }),
+        1 => (1u8..4, any::<bool>()).prop_map(move |(k, sb)| Op::PollDrop { op: Box::new(Op::Pull { s: s0, max: 2, ri: true, a: false }), k, settle_between: sb }),
         8 => (0u16..=65535, probe).prop_map(move |(d, delta_us)| Op::GoTo { s: s0, d, delta_us }),
         3 => prop_oneof![Just(1u64), Just(50), Just(100), Just(1_000), Just(4_000), Just(9_990), Just(10_101)].prop_map(|ms| Op::Advance { ms }),
         2 => refs.clone().prop_map(move |refs| Op::Ack { s: s0, refs, a: false }),
@@ -277,7 +278,7 @@ pub fn c07_strategy() -> BoxedStrategy<Case> {
         ns: 2,
         p_async: 0.85,
         burst: 14,
-        burst_kinds: vec![0, 1, 2, 3, 4, 5, 6],
+        burst_kinds: vec![0, 1, 2, 3, 4, 5, 6, 7, 8, 8],
         burst_n: (17, 60),
         publish: 8,
         delete_sub: 5,
@@ -320,6 +321,7 @@ pub fn c08_strategy() -> BoxedStrategy<Case> {
         modify: 0,
         pull_all: 3,
         max_msgs: vec![1, 2, 3, 10],
+        big_payload: 8,
         ..W::default()
     };
     arb_case(w, 1..=1, 1..=3, 8..40, 2)
@@ -348,6 +350,62 @@ pub fn c09_strategy() -> BoxedStrategy<Case> {
     };
     arb_case(w, 1..=2, 1..=3, 6..30, 0)
 }
+
+/// C09: publishes racing topic deletion / re-creation (stale handles), with yield points
+pub fn c09_race_strategy() -> BoxedStrategy<Case> {
+    let w = W {
+        nt: 2,
+        ns: 2,
+        p_async: 0.6,
+        payload_rich: false,
+        publish: 14,
+        pull_ri: 4,
+        pull_all: 4,
+        create_topic: 6,
+        delete_topic: 6,
+        create_sub: 3,
+        delete_sub: 1,
+        tick: 4,
+        settle: 2,
+        advance: 1,
+        nack: 1,
+        ack: 1,
+        stream_open: 0,
+        stream_send: 0,
+        pull_block: 0,
+        ..W::default()
+    };
+    (arb_case(w, 1..=2, 1..=2, 6..30, 0), vec((prop_oneof![Just(1u8), Just(4u8), Just(1u8)], 0u8..5, 1u8..6), 0..4))
+        .prop_map(|(mut c, pts)| {
+            c.points = pts.into_iter().map(|(point, nth, yields)| PointSpec { point, nth, yields }).collect();
+            c
+        })
+        .boxed()
+}
+
+/// Adds up to two stalled schedule points (the task reaching the point is held until the
+/// history says `ReleaseStalls`, or until the finale) to the cases of a strategy.
+pub fn with_stalls(inner: BoxedStrategy<Case>, candidates: &'static [u8]) -> BoxedStrategy<Case> {
+    (inner, vec((0..candidates.len(), 0u8..3), 0..=2), any::<u16>(), any::<u16>())
+        .prop_map(move |(mut c, st, pos, pos2)| {
+            if !st.is_empty() {
+                for (i, nth) in &st {
+                    c.points.insert(0, PointSpec { point: candidates[*i], nth: *nth, yields: 255 });
+                }
+                let at = crate::case::pick(pos, c.ops.len() + 1);
+                c.ops.insert(at, Op::ReleaseStalls);
+                if pos2 % 3 == 0 {
+                    let at = crate::case::pick(pos2, c.ops.len() + 1);
+                    c.ops.insert(at, Op::Settle);
+                }
+            }
+            c
+        })
+        .boxed()
+}
+
+/// the cross-actor sends of create and delete
+const CONTROL_POINTS: &[u8] = &[0, 2, 3, 4, 10, 4, 10, 1];
 
 pub fn c10_strategy() -> BoxedStrategy<Case> {
     let w = W {
@@ -378,7 +436,7 @@ pub fn c10_strategy() -> BoxedStrategy<Case> {
         push_variants: vec![0, 0, 0, 1, 2, 3, 4],
         ..W::default()
     };
-    arb_case(w, 0..=2, 0..=2, 6..36, 3)
+    with_stalls(arb_case(w, 0..=2, 0..=2, 6..36, 3), CONTROL_POINTS)
 }
 
 pub fn c11_strategy() -> BoxedStrategy<Case> {
@@ -409,7 +467,7 @@ pub fn c11_strategy() -> BoxedStrategy<Case> {
         ..W::default()
     };
     // yield point between manager insert and attach is point index 0
-    (arb_case(w, 1..=2, 0..=3, 6..36, 0), vec((0u8..4, 1u8..6), 0..3))
+    let inner = (arb_case(w, 1..=2, 0..=3, 6..36, 0), vec((0u8..4, 1u8..6), 0..3))
         .prop_map(|(mut c, pts)| {
             // yield points around the two cross-actor steps of create and delete:
             // 0 create_sub.before_attach, 2 topic.send.attach, 3 topic.send.remove, 4 topic.send.delete, 10 sub.send.delete
@@ -417,7 +475,8 @@ pub fn c11_strategy() -> BoxedStrategy<Case> {
             c.points = pts.into_iter().enumerate().map(|(i, (nth, yields))| PointSpec { point: which[(i + nth as usize + yields as usize) % which.len()], nth, yields }).collect();
             c
         })
-        .boxed()
+        .boxed();
+    with_stalls(inner, CONTROL_POINTS)
 }
 
 pub fn c12_strategy() -> BoxedStrategy<Case> {
@@ -435,6 +494,7 @@ pub fn c12_strategy() -> BoxedStrategy<Case> {
         2 => Just(Op::Pull { s: s0, max: 5, ri: true, a: true }),
         2 => (1u8..3).prop_map(move |n| Op::Publish { t: t0, n, payload: Payload::plain(), a: true }),
         1 => Just(Op::GetSub { s: s0, a: true }),
+        1 => Just(Op::DeleteTopic { t: t0, a: true }),
         3 => (0u8..7).prop_map(|n| Op::Tick { n }),
         1 => (vec(arb_ref(1), 0..2), vec((arb_ref(1), Just(30i32)), 0..2)).prop_map(|(acks, mods)| Op::StreamSend { k: 0, acks, mods }),
     ];
@@ -464,6 +524,9 @@ pub fn c12_strategy() -> BoxedStrategy<Case> {
             }
             ops.extend(after);
             ops.push(Op::Settle);
+            // a client that got no clean answer asks again
+            ops.push(Op::DeleteSub { s: s0, a: false });
+            ops.push(Op::Settle);
             Case { sched_seed, phase_us: 0, fanout_seed, points, ops }
         })
         .boxed()
@@ -486,7 +549,8 @@ pub fn c15_strategy(big: bool) -> BoxedStrategy<Case> {
         2 => ox.prop_map(move |max_out| Op::StreamOpen { s: s0, max_out }),
         1 => Just(Op::StreamDrop { k: 0 }),
         3 => (1u8..4).prop_map(move |n| Op::Publish { t: t0, n, payload: Payload::plain(), a: false }),
-        1 => Just(Op::Settle),
+        2 => prop_oneof![Just(999u32), Just(1000), Just(1001), Just(2500)].prop_map(move |n| Op::PublishMany { t: t0, n, a: false }),
+        2 => Just(Op::Settle),
         1 => prop_oneof![Just(10_200u64), Just(300_000), Just(299_000)].prop_map(|ms| Op::Advance { ms }),
         1 => vec(arb_ref(0), 1..3).prop_map(move |refs| Op::Modify { s: s0, refs, secs: 0, a: false }),
     ];
@@ -583,6 +647,31 @@ pub fn c13_strategy(big: bool) -> BoxedStrategy<Case> {
         .boxed()
 }
 
+/// More than 1000 resources (the page-size cap) and more than 256 (token byte boundaries).
+pub fn c13_big_cases(tier: Tier) -> Vec<Case> {
+    let sizes: &[i32] = match tier {
+        Tier::Quick => &[7, 251, 1000, 1001, i32::MAX],
+        Tier::Thorough => &[0, 1, 2, 7, 50, 83, 125, 251, 999, 1000, 1001, 1002, 1003, 1004, 5000, i32::MAX],
+    };
+    let mut v = Vec::new();
+    for kind in 0u8..3 {
+        let mut ops = vec![Op::CreateTopic { t: T { p: 0, i: 200 }, a: false }];
+        // 1003 topics in project 0 (ids 0..=249 x 4 pseudo "columns" via the project digit would
+        // leave the project; use the i field range 0..=255 of four name prefixes instead)
+        for j in 0..1003u32 {
+            match kind {
+                0 => ops.push(Op::Raw { req: crate::trace::Req::CreateTopic { name: format!("projects/p0/topics/big{}", j) }, a: false }),
+                _ => ops.push(Op::Raw { req: crate::trace::Req::CreateSub { name: format!("projects/p0/subscriptions/big{}", j), topic: T { p: 0, i: 200 }.name(), dl: 10, push: None }, a: false }),
+            }
+        }
+        for sz in sizes {
+            ops.push(Op::Walk { kind, p: 0, t: T { p: 0, i: 200 }, size: *sz });
+        }
+        v.push(Case { sched_seed: kind as u64, phase_us: 0, fanout_seed: 0, points: vec![], ops });
+    }
+    v
+}
+
 pub fn arb_tok() -> BoxedStrategy<Tok> {
     prop_oneof![
         4 => prop_oneof![Just(0u64), Just(1), Just(2), Just(19), Just(20), Just(21), Just(40), Just(1000), Just(u32::MAX as u64), Just(u64::MAX), Just(u64::MAX - 1), Just(1u64 << 63)].prop_map(Tok::Offset),
@@ -625,6 +714,11 @@ pub fn run_worker(ctx: &WorkerCtx) -> WorkerOut {
         "C03" => {
             let nt = |_: &Case, r: &Report| r.feat.concurrent_consumers_with_2_msgs && r.feat.redeliveries > 0;
             run_sim_stage(ctx, SimStage { name: "random", strategy: c03_strategy(), cfg: sim_cfg(false), cases: ctx.share(scale(t, 8_000, 240_000)), nontrivial: &nt, classes: &std_classes, extra: None }, &mut out);
+            // push rounds as consumers (real HTTP endpoint): no second POST of a message while an
+            // earlier one is unanswered within its ack deadline
+            if out.failure.is_none() {
+                crate::push::push_check(ctx, &mut out, 1);
+            }
         }
         "C04" => {
             crate::pure::ackdeadline_sweep(ctx, &mut out);
@@ -650,6 +744,7 @@ pub fn run_worker(ctx: &WorkerCtx) -> WorkerOut {
         "C09" => {
             let nt = |_: &Case, r: &Report| r.feat.redelivered_with_attrs_or_binary || r.feat.topic_instances_same_name >= 2;
             run_sim_stage(ctx, SimStage { name: "payloads", strategy: c09_strategy(), cfg: sim_cfg(false), cases: ctx.share(scale(t, 4_000, 80_000)), nontrivial: &nt, classes: &std_classes, extra: None }, &mut out);
+            run_sim_stage(ctx, SimStage { name: "id_races", strategy: c09_race_strategy(), cfg: sim_cfg(false), cases: ctx.share(scale(t, 3_000, 60_000)), nontrivial: &nt, classes: &std_classes, extra: None }, &mut out);
             // push delivery path (real HTTP endpoint)
             if out.failure.is_none() {
                 crate::push::push_check(ctx, &mut out, 1);
@@ -669,6 +764,7 @@ pub fn run_worker(ctx: &WorkerCtx) -> WorkerOut {
         }
         "C13" => {
             crate::pure::paging_pure(ctx, &mut out);
+            run_case_list(ctx, "walks_1003", c13_big_cases(t), &RunCfg { horizon: false, drain: false, qp_each_op: false }, &mut out);
             let nt = |_: &Case, r: &Report| r.feat.walks_multi_page_after_delete > 0 || r.feat.hostile_tokens > 0;
             run_sim_stage(ctx, SimStage { name: "walks", strategy: c13_strategy(t == Tier::Thorough), cfg: RunCfg { horizon: false, drain: false, qp_each_op: false }, cases: ctx.share(scale(t, 4_000, 80_000)), nontrivial: &nt, classes: &no_classes, extra: None }, &mut out);
         }
